@@ -45,7 +45,7 @@ var metaTable = map[string]propMeta{
 		Rule:       histRule + "data-plane or request fingerprints with a determinate (MUST) verdict other than 'no allocation at all'",
 		NonTrivial: notPrefix("send/noalloc", "chandata/noalloc", "peer/norelay", "allocate/", "refresh/", "probe-expiry", "tcp-control")},
 	"C02": {Level: "exploration", Assumptions: commonAssumptions,
-		Rule:       histRule + "peer->relay fingerprints (sender class x authorisation state x transport) with a MUST verdict, other than 'no such relay'",
+		Rule: histRule + "peer->relay fingerprints (sender class x authorisation state x transport) with a MUST verdict, other than 'no such relay'",
 		NonTrivial: func(fp string) bool {
 			return (strings.HasPrefix(fp, "peer/") && !strings.HasPrefix(fp, "peer/norelay")) || strings.HasPrefix(fp, "inbound/")
 		}},
@@ -67,7 +67,9 @@ func init() {
 			"for each payload length four datagrams (Send, ChannelData, peer->relay via channel, peer->relay via indication) with contents from 6 classes (random, zeros, 0xFF, STUN-like, magic-cookie-prefixed, ChannelData-like) are submitted and the multiset of emissions is compared byte-for-byte with the submissions, attribution included; " +
 			"thorough enumerates every length 0..1700 for each (transport, MTU) pair, quick samples boundary lengths; a fingerprint is (transport, length, content class); non-trivial = all of them (each carries four MUST/MAY-whole verdicts)",
 		NonTrivial: func(fp string) bool { return strings.HasPrefix(fp, "len/") },
-		Exhaustive: func(tier string, ev map[string]int) bool { return tier == "thorough" && ev["sweep-length-covered"] >= 1701*10 },
+		Exhaustive: func(tier string, ev map[string]int) bool {
+			return tier == "thorough" && ev["sweep-length-covered"] >= 1701*10
+		},
 	}
 }
 
@@ -79,7 +81,9 @@ func init() {
 		NonTrivial: func(fp string) bool {
 			return strings.HasPrefix(fp, "sweep/") || strings.HasPrefix(fp, "chanbind/") || strings.HasPrefix(fp, "chandata/chan-") || strings.HasPrefix(fp, "peer/chan-")
 		},
-		Exhaustive: func(tier string, ev map[string]int) bool { return tier == "thorough" && ev["sweep-number-covered"] >= 65536 },
+		Exhaustive: func(tier string, ev map[string]int) bool {
+			return tier == "thorough" && ev["sweep-number-covered"] >= 65536
+		},
 	}
 }
 
